@@ -293,7 +293,7 @@ def memory_rollback(tier, oid='O4', prefix='O4'):
     scenarios = 0
     # mutations between snapshot and rollback: which nostr id the group is re-saved with (None = not re-saved), whether the other group is re-saved too
     import itertools
-    for g_new_nid, other_changes, extra_snapshot, empty in itertools.product((None, N[0], N[2]), (False, True), (False, True), (False, True)):
+    for g_new_nid, other_changes, extra_snapshot, empty in itertools.product((None, N[0], N[2]), (False, True), (False, 'before', 'after'), (False, True)):
         if True:
             if True:
                 # `empty`: at snapshot time the group has NO relays, exporter secrets, own-leaf and epoch-key rows; they appear afterwards
@@ -330,7 +330,7 @@ def memory_rollback(tier, oid='O4', prefix='O4'):
                 at_snapshot = dump_store(ob.eng, st, sref)
                 # taking a snapshot changes no live state
                 before_live = {k: v for k, v in at_snapshot.items() if k != '#snapshots'}
-                if extra_snapshot:
+                if extra_snapshot == 'before':
                     n2 = Ref(st.temp(StrV(text='other')), ())
                     st = [p for p in ob.explore(f_create, [sref, gref, n2], st) if p.kind == 'return'][0].st
                 # mutations through the real save_group / direct writes of dependent caches
@@ -359,6 +359,10 @@ def memory_rollback(tier, oid='O4', prefix='O4'):
                     rs = [p for p in ob.explore(f_save, [sref, h1], st) if p.kind == 'return' and vname(p.ret) == 'Ok']
                     if rs:
                         st = rs[0].st
+                if extra_snapshot == 'after':
+                    # a second snapshot of the same group taken AFTER the record changed (e.g. at a later epoch): rolling back to the first one must not consume it
+                    n2 = Ref(st.temp(StrV(text='other')), ())
+                    st = [p for p in ob.explore(f_create, [sref, gref, n2], st) if p.kind == 'return'][0].st
                 pre_rollback = dump_store(ob.eng, st, sref)
                 rs = ob.explore(f_roll, [sref, gref, name], st)
                 for p in rs:
@@ -444,8 +448,28 @@ def save_group_refusal(tier, oid='O6', prefix='O6'):
             ob.require(want == got, f'{prefix}/memory-save-group-index', f'after save_group the Nostr-id index does not mirror the group records {tag}', p, {'index': [x[0] for x in got], 'records': [x[0] for x in want]})
             ob.require(any(repr(k) == repr(who) and srepr(v) == srepr(rec) for k, v in gc.entries), f'{prefix}/memory-save-group-not-stored', f'the saved record is not what a lookup returns {tag}', p)
         ob.require(collides or n_ok > ok_before, f'{prefix}/memory-save-group-refused', f'save_group never accepts a record whose Nostr id is free or its own {tag}')
+    # a store that is exactly full (LRU capacity = number of groups; reachable with a non-default cache_size): rotating one group's Nostr id must not push ANOTHER group's routing entry out
+    for first in (G, H):
+        st = State()
+        g0, h0 = group('g0', G, N[0]), group('h0', H, N[1])
+        order = [[G, g0], [H, h0]] if first is G else [[H, h0], [G, g0]]
+        caches = {'groups_cache': MapV([list(x) for x in order], 'LruCache', cap=2),
+                  'groups_by_nostr_id_cache': MapV([[mfield_g(v, 'nostr_group_id'), copy_msg(v)] for _, v in order], 'LruCache', cap=2)}
+        sref = storage(st, caches)
+        rec = group('rot', G, N[2])
+        for p in ob.explore(f_save, [sref, rec], st):
+            total += 1
+            if p.kind != 'return' or vname(p.ret) != 'Ok':
+                continue
+            gc = cache(ob.eng, p.st, sref, 'groups_cache')
+            nc = cache(ob.eng, p.st, sref, 'groups_by_nostr_id_cache')
+            want = sorted((repr(mfield_g(v, 'nostr_group_id')), srepr(v)) for k, v in gc.entries)
+            got = sorted((repr(k), srepr(v)) for k, v in nc.entries)
+            ob.require(want == got and len(gc.entries) == 2, f'{prefix}/memory-save-group-full-store-unroutes-other-group',
+                       f'in a store that is exactly full, rotating the Nostr id of one group leaves the index {[x[0] for x in got]} for the records {[x[0] for x in want]}: '
+                       'another group lost its routing entry (the new entry was inserted before the old one was removed)', p)
     ob.require(n_err >= 2 and n_ok >= 2, f'{prefix}/vacuity', f'refused {n_err}, accepted {n_ok}')
-    ob.r.bounds = {'groups': '2 stored + 1 new', 'nostr ids': 'pool of 3 (own, other group\'s, fresh)', 'record payload': 'symbolic'}
+    ob.r.bounds = {'groups': '2 stored + 1 new', 'nostr ids': 'pool of 3 (own, other group\'s, fresh)', 'record payload': 'symbolic', 'full store': 'LRU capacity 2 with 2 groups, both insertion orders'}
     ob.r.assumptions += ASSUMPTIONS
     ob.r.vacuity.append(f'{total} paths: {n_err} refused, {n_ok} accepted')
     return ob.done(cases=total)
@@ -516,4 +540,65 @@ def pending_welcomes_listing(tier, oid='O10', prefix='O10'):
     ob.r.bounds = {'stored welcomes': f'0..{NMAX} in arbitrary states', 'limit / offset': 'all usize', 'ids': 'all distinct 256-bit values'}
     ob.r.assumptions += ASSUMPTIONS
     ob.r.vacuity.append(f'{total} paths, {n_ok} listings, {n_filtered} with a possibly non-pending welcome')
+    return ob.done(cases=total)
+
+
+@guard
+def save_message_upsert(tier, oid='O11', prefix='O11'):
+    """memory save_message: re-saving a stored message changes that message only; a new message at the per-group limit evicts exactly the oldest one"""
+    ob = Ob(oid, 'memory backend save_message with a symbolic per-group message limit: re-saving an already stored message (the confirmation of an own message, a re-delivery) replaces that message and '
+                 'removes nothing, whatever the limit; a new message is added, and only when the group is at its limit exactly one message -- the oldest -- is evicted',
+            crates=CRATES, loop_bound=10, max_paths=200000)
+    f = ob.prog.find(MEM, 'messages::save_message')
+    G = Tok('g', 0)
+    L = z3.BitVec('max_messages_per_group', 64)
+    total = n_upd = n_new = 0
+    for n, update in itertools.product((1, 2), (True, False)):
+        st = State()
+        ms = [message(f'm{i}', G) for i in range(n)]
+        for a, b in itertools.combinations(ms, 2):
+            st.pc.append(mfield(a, 'id').fields[0] != mfield(b, 'id').fields[0])
+        newm = message('new', G)
+        if update:
+            newm.fields[MSG_FIELDS.index('id')] = mfield(ms[0], 'id')
+        else:
+            for a in ms:
+                st.pc.append(mfield(a, 'id').fields[0] != mfield(newm, 'id').fields[0])
+        caches = {'groups_cache': MapV([[G, group('g0', G)]], 'LruCache'),
+                  'messages_by_group_cache': MapV([[G, MapV([[mfield(m, 'id'), m] for m in ms], 'HashMap')]], 'LruCache'),
+                  'messages_cache': MapV([[mfield(m, 'id'), copy_msg(m)] for m in ms], 'LruCache')}
+        sref = storage(st, caches, {'max_messages_per_group': L})
+        before_ = dump_store(ob.eng, st, sref)
+        for p in ob.explore(f, [sref, newm], st):
+            total += 1
+            if p.kind == 'panic':
+                ob.require(False, f'{prefix}/memory-save-message-panic', f'save_message panics: {p.msg}', p); continue
+            if vname(p.ret) != 'Ok':
+                # the group lookup is an environment call here (it may fail): a refused save must then have changed nothing
+                ob.require(dump_store(ob.eng, p.st, sref) == before_, f'{prefix}/memory-save-message-refused-with-effects', 'save_message returned an error but changed the store', p)
+                continue
+            gm = [v for k, v in cache(ob.eng, p.st, sref, 'messages_by_group_cache').entries if repr(k) == repr(G)]
+            after = gm[0].entries if gm else []
+            ids_after = [k.fields[0] for k, _ in after]
+            has = lambda m: z3.Or([x == mfield(m, 'id').fields[0] for x in ids_after]) if ids_after else z3.BoolVal(False)
+            if update:
+                n_upd += 1
+                ob.require(len(after) == n, f'{prefix}/memory-resave-changes-message-set', f're-saving a stored message leaves {len(after)} message(s) in a group that held {n}: '
+                           'a message other than the re-saved one was removed (eviction on update)', p)
+                ob.prove_all(p, [(has(m), f'{prefix}/memory-resave-evicts', 're-saving a stored message evicts another stored message of the group') for m in ms])
+            else:
+                n_new += 1
+                full = z3.UGE(z3.BitVecVal(n, 64), L)
+                claims = [(has(newm), f'{prefix}/memory-new-message-not-stored', 'the new message is not stored')]
+                claims.append((z3.Implies(z3.Not(full), z3.And([has(m) for m in ms])), f'{prefix}/memory-evicts-below-limit', 'a stored message is evicted although the group is below its limit'))
+                claims.append((z3.Implies(z3.And(full, L != 0), z3.BoolVal(len(after) == n)), f'{prefix}/memory-limit-not-kept', 'at the limit the group does not keep its size (no eviction, or more than one)'))
+                if n == 2:
+                    c0, c1 = mfield(ms[0], 'created_at').fields[0], mfield(ms[1], 'created_at').fields[0]
+                    claims.append((z3.Implies(z3.And(full, z3.ULT(c0, c1)), has(ms[1])), f'{prefix}/memory-evicts-newer', 'at the limit a message other than the oldest is evicted'))
+                    claims.append((z3.Implies(z3.And(full, z3.ULT(c1, c0)), has(ms[0])), f'{prefix}/memory-evicts-newer', 'at the limit a message other than the oldest is evicted'))
+                ob.prove_all(p, claims)
+    ob.require(n_upd >= 2 and n_new >= 2, f'{prefix}/vacuity', f'update paths {n_upd}, insert paths {n_new}')
+    ob.r.bounds = {'stored messages of the group': '1..2', 'per-group limit': 'symbolic u64', 'ids / timestamps': 'symbolic'}
+    ob.r.assumptions += ASSUMPTIONS
+    ob.r.vacuity.append(f'{total} paths: {n_upd} re-saves, {n_new} inserts')
     return ob.done(cases=total)
